@@ -314,12 +314,16 @@ func newCase(n int, kind string, S uint) *bcase {
 
 func fill(c *bcase, rest []int, filler string) {
 	c.filler = filler
-	for _, i := range rest {
+	for q, i := range rest {
 		switch filler {
 		case "other-G1-point":
 			applySimple(c, i, "other-G1-point")
 		case "mixed":
 			applySimple(c, i, mixedKinds[i%len(mixedKinds)])
+		case "pre-marked":
+			// entries that the Go layer refuses before the C layer sees the list (wrong length,
+			// identity key), whatever their position
+			applySimple(c, i, [...]string{"length-47", "identity-key", "length-0"}[q%3])
 		}
 	}
 }
@@ -394,7 +398,7 @@ func buildCases(n int) []*bcase {
 			if len(rest) == 0 {
 				return []string{"none"}
 			}
-			return []string{"other-G1-point", "mixed"}
+			return []string{"other-G1-point", "mixed", "pre-marked"}
 		}
 		for a := 0; a < len(m); a++ {
 			for b := a + 1; b < len(m); b++ {
